@@ -1,0 +1,84 @@
+//go:build verif
+
+// Contracts for the deductive verification in /verif (govc): hostname verification
+// (property C09). This file contains comments only; it is compiled only with -tags verif
+// and declares nothing.
+
+package x509
+
+// id-ce-subjectAltName = 2.5.29.17 (RFC 5280 4.2.1.6)
+//@ global len(oidExtensionSubjectAltName) == 4 && oidExtensionSubjectAltName[0] == 2 && oidExtensionSubjectAltName[1] == 5 && oidExtensionSubjectAltName[2] == 29 && oidExtensionSubjectAltName[3] == 17
+
+//@ pred oidEq(a, b) = len(a) == len(b) && forall(k, 0, len(a), a[k] == b[k])
+
+// "returns whether an extension with the given oid exists in extensions"
+//@ func oidInExtensions
+//@   loop 1 invariant forall(j, 0, it, !oidEq(extensions[j].Id, oid))
+//@   ensures result <==> exists(j, 0, len(extensions), oidEq(extensions[j].Id, oid))
+//@   terminates
+
+//@ pred isSANOid(a) = len(a) == 4 && a[0] == 2 && a[1] == 5 && a[2] == 29 && a[3] == 17
+
+//@ func (*Certificate).hasSANExtension
+//@   requires c != nil
+//@   ensures result <==> exists(j, 0, len(c.Extensions), isSANOid(c.Extensions[j].Id))
+//@   terminates
+
+// RFC 6125 6.4.1: ASCII-only lower-casing; same length, byte i is lc(in[i]).
+//@ pred lowered(r, s) = len(r) == len(s) && forall(k, 0, len(s), r[k] == spec.lc(s[k]))
+//@ func toLowerCaseASCII
+//@   loop 2 invariant 0 <= it && it <= len(out) && len(out) == len(in) && fresh(out)
+//@   loop 2 invariant forall(k, 0, it, out[k] == spec.lc(in[k]))
+//@   loop 2 invariant forall(k, it, len(in), out[k] == in[k])
+//@   loop 2 decreases len(out) - it
+//@   ensures len(result) == len(in)
+//@   ensures result == in || result == spec.lower(in)
+
+// Documented matching rule (crypto/x509 VerifyHostname; RFC 6125 6.4.3 as implemented):
+// spec.hn_match in /verif/specs/hostname.smt2. Labels are named through strings.Split's
+// assumed contract (spec.nparts / spec.part, /verif/extern/hostname.contracts).
+//@ pred trimDot(s) = spec.trim1(s, '.')
+//@ func matchHostnames
+//@   loop 1 invariant 0 <= it && it <= len(patternParts) && len(patternParts) == len(hostParts)
+//@   loop 1 invariant forall(k, 0, it, spec.part(trimDot(old(pattern)), '.', k) == "*" || spec.part(trimDot(old(pattern)), '.', k) == spec.part(trimDot(old(host)), '.', k))
+//@   loop 1 invariant it < len(patternParts) ==> patternParts[it] == spec.part(trimDot(old(pattern)), '.', it) && hostParts[it] == spec.part(trimDot(old(host)), '.', it)
+//@   loop 1 decreases len(patternParts) - it
+//@   ensures result <==> spec.hn_match(pattern, host)
+//@   uses perreturn
+//@   terminates
+
+// ---------------------------------------------------------------- VerifyHostname (C09)
+// candIP: the host with one pair of enclosing brackets removed ("IP addresses may be written in [ ]").
+//@ pred candIP(h) = spec.unbracket(h)
+// The address denoted by the literal s (spec.ip_len / spec.ip_at, see net.ParseIP in
+// /verif/extern/hostname.contracts) is the same IP address as b (net.IP.Equal's documented rule).
+//@ pred litV4in6(s, y4) = spec.ip_len(s) == 16 && len(y4) == 4 && spec.ip_at(s, 0) == 0 && spec.ip_at(s, 1) == 0 && spec.ip_at(s, 2) == 0 && spec.ip_at(s, 3) == 0 && spec.ip_at(s, 4) == 0 && spec.ip_at(s, 5) == 0 && spec.ip_at(s, 6) == 0 && spec.ip_at(s, 7) == 0 && spec.ip_at(s, 8) == 0 && spec.ip_at(s, 9) == 0 && spec.ip_at(s, 10) == 0xff && spec.ip_at(s, 11) == 0xff && spec.ip_at(s, 12) == y4[0] && spec.ip_at(s, 13) == y4[1] && spec.ip_at(s, 14) == y4[2] && spec.ip_at(s, 15) == y4[3]
+//@ pred v4in6Lit(x16, s) = len(x16) == 16 && spec.ip_len(s) == 4 && x16[0] == 0 && x16[1] == 0 && x16[2] == 0 && x16[3] == 0 && x16[4] == 0 && x16[5] == 0 && x16[6] == 0 && x16[7] == 0 && x16[8] == 0 && x16[9] == 0 && x16[10] == 0xff && x16[11] == 0xff && x16[12] == spec.ip_at(s, 0) && x16[13] == spec.ip_at(s, 1) && x16[14] == spec.ip_at(s, 2) && x16[15] == spec.ip_at(s, 3)
+//@ pred ipLitSame(s, b) = (spec.ip_len(s) == len(b) && forall(i, 0, len(b), spec.ip_at(s, i) == b[i])) || litV4in6(s, b) || v4in6Lit(b, s)
+// Case-insensitive match of a certificate name p against host h. toLowerCaseASCII is only
+// known to return its argument or its lower-casing (see the notes: range over a string is
+// abstracted by govc), hence the two forms: ciSome = some combination matches, ciAll = all do.
+// Whenever toLowerCaseASCII returns its argument unchanged only for strings without upper-case
+// letters (which is what the code does), both equal spec.hn_match(lower(p), lower(h)).
+//@ pred ciSome(p, h) = spec.hn_match(spec.lower(p), spec.lower(h)) || spec.hn_match(p, spec.lower(h)) || spec.hn_match(spec.lower(p), h) || spec.hn_match(p, h)
+//@ pred ciAll(p, h) = spec.hn_match(spec.lower(p), spec.lower(h)) && spec.hn_match(p, spec.lower(h)) && spec.hn_match(spec.lower(p), h) && spec.hn_match(p, h)
+//@ pred hasSAN(c) = exists(j, 0, len(c.Extensions), isSANOid(c.Extensions[j].Id))
+//@ pred plain(h) = !(len(h) >= 3 && h[0] == '[' && h[len(h)-1] == ']')
+//@ func (*Certificate).VerifyHostname
+//@   requires c != nil
+//@   loop 1 invariant 0 <= it && it <= len(c.IPAddresses)
+//@   loop 1 invariant forall(j, 0, it, !ipLitSame(candidateIP, c.IPAddresses[j]))
+//@   loop 2 invariant 0 <= it && it <= len(c.DNSNames)
+//@   loop 2 invariant lowered == h || lowered == spec.lower(h)
+//@   loop 2 invariant forall(j, 0, it, !spec.hn_match(c.DNSNames[j], lowered) || !spec.hn_match(spec.lower(c.DNSNames[j]), lowered))
+//@   ensures [ip_sound] plain(h) && spec.ip_literal(h) && result == nil ==> exists(j, 0, len(c.IPAddresses), ipLitSame(h, c.IPAddresses[j]))
+//@   ensures [ip_complete] plain(h) && spec.ip_literal(h) && result != nil ==> forall(j, 0, len(c.IPAddresses), !ipLitSame(h, c.IPAddresses[j]))
+//@   ensures [san_sound] plain(h) && !spec.ip_literal(h) && hasSAN(c) && result == nil ==> exists(j, 0, len(c.DNSNames), ciSome(c.DNSNames[j], h))
+//@   ensures [san_complete] plain(h) && !spec.ip_literal(h) && hasSAN(c) && result != nil ==> forall(j, 0, len(c.DNSNames), !ciAll(c.DNSNames[j], h))
+//@   ensures [cn_sound] plain(h) && !spec.ip_literal(h) && !hasSAN(c) && result == nil ==> ciSome(c.Subject.CommonName, h)
+//@   ensures [cn_complete] plain(h) && !spec.ip_literal(h) && !hasSAN(c) && result != nil ==> !ciAll(c.Subject.CommonName, h)
+//@   ensures [br_ip_sound] !plain(h) && spec.ip_literal(candIP(h)) && result == nil ==> exists(j, 0, len(c.IPAddresses), ipLitSame(candIP(h), c.IPAddresses[j]))
+//@   ensures [br_ip_complete] !plain(h) && spec.ip_literal(candIP(h)) && result != nil ==> forall(j, 0, len(c.IPAddresses), !ipLitSame(candIP(h), c.IPAddresses[j]))
+//@   ensures [br_cn_sound] !plain(h) && !spec.ip_literal(candIP(h)) && !hasSAN(c) && result == nil ==> ciSome(c.Subject.CommonName, h)
+//@   uses perreturn
+//@   terminates
